@@ -319,6 +319,9 @@ type Exec struct {
 	// ExecPolicy / FinalPolicy return true to fail the call.
 	ExecPolicy  func(height uint64) bool
 	FinalPolicy func(height uint64) bool
+	// HonourCancel: a call made with an already cancelled context fails with the context's error (what a remote
+	// execution client does); off by default.
+	HonourCancel bool
 }
 
 func NewExec() *Exec { return &Exec{} }
@@ -394,6 +397,12 @@ func (c *ExecClient) GetTxs(ctx context.Context) ([][]byte, error) {
 func (c *ExecClient) ExecuteTxs(ctx context.Context, txs [][]byte, height uint64, ts time.Time, prev []byte) ([]byte, uint64, error) {
 	c.enter(fmt.Sprintf("exec.exec %d", height))
 	e := c.Exec
+	if e.HonourCancel && ctx.Err() != nil {
+		e.mu.Lock()
+		e.Calls = append(e.Calls, ExecCall{Kind: "exec", Height: height, Err: true})
+		e.mu.Unlock()
+		return nil, 0, ctx.Err()
+	}
 	fail := e.ExecPolicy != nil && e.ExecPolicy(height)
 	e.mu.Lock()
 	defer e.mu.Unlock()
@@ -429,6 +438,12 @@ func (c *ExecClient) ExecuteTxs(ctx context.Context, txs [][]byte, height uint64
 func (c *ExecClient) SetFinal(ctx context.Context, height uint64) error {
 	c.enter(fmt.Sprintf("exec.final %d", height))
 	e := c.Exec
+	if e.HonourCancel && ctx.Err() != nil {
+		e.mu.Lock()
+		e.Calls = append(e.Calls, ExecCall{Kind: "final", Height: height, Err: true})
+		e.mu.Unlock()
+		return ctx.Err()
+	}
 	fail := e.FinalPolicy != nil && e.FinalPolicy(height)
 	e.mu.Lock()
 	defer e.mu.Unlock()
